@@ -257,6 +257,13 @@ type Scalar struct {
 	Aux    Val    // auxiliary payload (e.g. the context a Done channel belongs to)
 	// Allocs: when non-nil, the value is nil or one of these heap allocations of the activation (by index)
 	Allocs *allocSet
+	// Keys: for a map made by this activation, the constant keys it may hold (shared by every alias of the map)
+	Keys *keySet
+}
+
+type keySet struct {
+	known bool
+	ks    map[string]bool
 }
 
 type allocSet struct{ ks []int }
